@@ -196,6 +196,17 @@ func anyGoroutine(subs ...string) bool {
 	return false
 }
 
+// countGoroutines counts the goroutines (outside the harness) that have a frame containing sub.
+func countGoroutines(sub string) int {
+	n := 0
+	for _, g := range goroutines() {
+		if !g.harness() && g.hasFrame(sub) {
+			n++
+		}
+	}
+	return n
+}
+
 // goroutineByID finds one goroutine.
 func goroutineByID(id int64) (gor, bool) {
 	for _, g := range goroutines() {
